@@ -1,6 +1,169 @@
-From Coq Require Import ZArith List Bool.
-From Future Require Import FutureModel FutureSpec.
+(* Property C10 — "Every Future call runs exactly once and join waits for its result".
+
+   All theorems are about the interleaving model FutureModel.v (threads = program counters over
+   the atomic steps of src/Future.cpp + Future.hpp, sequential consistency) and hold for EVERY
+   schedule (list of moves) and EVERY configuration (queue capacity, pool bounds, lazy pool
+   creation, number of client threads and futures, client scripts, started function) that is
+   well formed: [wf_cfg cfg own] = the queue has room for one job, every future named in a script
+   exists and is used by one client thread only ([own] names its owner).
+
+   clause of the statement                                   theorem
+   ------------------------------------------------------    -------------------------------------
+   each started call is executed at most once                each_call_runs_at_most_once
+   ... exactly once, with the arguments given, and            joined_call_ran_exactly_once,
+     join()/~Future/conversion return only after that            run_uses_given_arguments, starts_unique
+     execution has completed (EvComplete before EvJoinRet)
+   the converted result is the function's return value       result_is_return_value
+   after join: isAborted only if abort() was requested        aborted_only_if_requested
+     since the start, isFinished otherwise
+   MPMC ring: ticket/sequence invariant; no slot handed      ring_ticket_invariant, ring_no_two_consumers,
+     to two consumers / producers; a pop returns the job        ring_no_two_producers, ring_pop_reads_pushed,
+     pushed under its ticket; queued jobs are not lost          ring_no_job_lost
+   the inductive invariant all of the above are read off     model_invariant_all_schedules
+   "every join eventually returns":
+     - for the sleep/wake handshake as it was before           join_liveness_refuted_original (witness schedule,
+       fixes/C10/01+02 the clause is FALSE                        replayed by vm_compute) + deadlock_is_permanent
+     - for the code as it is now: NOT PROVED.  Validated by exhaustive explicit-state search of the
+       model in bounded configurations and by stress / gated replays on the real code (see the
+       check's level_note); the witness above no longer deadlocks (Example witness_survives_fix).
+   worker-pool sizing (grow/idle/shrink), lazy pool creation, full-queue back-pressure: part of the
+   model, i.e. covered by the quantifier "every schedule" of the theorems above. *)
+From Coq Require Import ZArith List Bool Lia Arith.
+From Future Require Import FutureModel FutureRingProofs FutureProofs FutureStep FutureTheorems FutureLiveness FutureExamples.
 Import ListNotations.
-Theorem exec_nil : forall cfg, exec cfg [] = (init cfg, []).
-Proof. exact (fun cfg => eq_refl). Qed.
-Print Assumptions exec_nil.
+Local Open Scope Z_scope.
+
+Theorem model_invariant_all_schedules : forall cfg own sched,
+  wf_cfg cfg own -> GInv cfg own (fst (exec cfg sched)) (snd (exec cfg sched)).
+Proof. exact exec_inv. Qed.
+Print Assumptions model_invariant_all_schedules.
+
+Theorem each_call_runs_at_most_once : forall cfg own, wf_cfg cfg own ->
+  forall sched f n, (runs (snd (exec cfg sched)) f n <= 1)%nat.
+Proof. exact at_most_once. Qed.
+Print Assumptions each_call_runs_at_most_once.
+
+Theorem joined_call_ran_exactly_once : forall cfg own, wf_cfg cfg own ->
+  forall sched newer c f n older,
+    snd (exec cfg sched) = newer ++ EvJoinRet c f n :: older ->
+    runs older f n = 1%nat /\ runs (snd (exec cfg sched)) f n = 1%nat /\
+    exists ab a wk w, In (EvComplete f n ab) older /\ started older f n a wk /\ In (EvRun w f n a) older /\
+                      In (EvStore f n (c_fn cfg a)) older.
+Proof. exact join_after_exactly_one_run. Qed.
+Print Assumptions joined_call_ran_exactly_once.
+
+Theorem run_uses_given_arguments : forall cfg own, wf_cfg cfg own ->
+  forall sched newer w f n a older,
+    snd (exec cfg sched) = newer ++ EvRun w f n a :: older -> exists wk, started older f n a wk.
+Proof. exact FutureTheorems.run_uses_given_arguments. Qed.
+Print Assumptions run_uses_given_arguments.
+
+Theorem starts_unique : forall cfg own, wf_cfg cfg own ->
+  forall sched c c' f n a a' wk wk',
+    In (EvStart c f n a wk) (snd (exec cfg sched)) -> In (EvStart c' f n a' wk') (snd (exec cfg sched)) ->
+    a = a' /\ wk = wk'.
+Proof. exact FutureTheorems.starts_unique. Qed.
+Print Assumptions starts_unique.
+
+Theorem result_is_return_value : forall cfg own, wf_cfg cfg own ->
+  forall sched newer c i f n v older,
+    snd (exec cfg sched) = newer ++ EvObs c i (OGet f (Some n) v) :: older ->
+    exists a wk, started older f n a wk /\ v = Some (c_fn cfg a).
+Proof. exact FutureTheorems.result_is_return_value. Qed.
+Print Assumptions result_is_return_value.
+
+Theorem aborted_only_if_requested : forall cfg own, wf_cfg cfg own ->
+  forall sched f,
+    let s := fst (exec cfg sched) in let tr := snd (exec cfg sched) in
+    (f < c_nfut cfg)%nat -> f_joinable (get_fut s f) = false -> (1 <= f_serial (get_fut s f))%nat ->
+    (f_state (get_fut s f) = StAborted -> exists c, In (EvAbort c f (f_serial (get_fut s f))) tr) /\
+    (f_state (get_fut s f) <> StAborted -> f_state (get_fut s f) = StFinished).
+Proof. exact FutureTheorems.aborted_only_if_requested. Qed.
+Print Assumptions aborted_only_if_requested.
+
+Theorem ring_ticket_invariant : forall cfg own, wf_cfg cfg own ->
+  forall sched, let s := fst (exec cfg sched) in RInv (st_ring s) (inflight s).
+Proof. exact ring_invariant. Qed.
+Print Assumptions ring_ticket_invariant.
+
+Theorem ring_no_two_consumers : forall cfg own, wf_cfg cfg own ->
+  forall sched a b ka kb pa pb tk,
+    let s := fst (exec cfg sched) in
+    a <> b -> pc_of s a = PRing ka pa -> pc_of s b = PRing kb pb -> pop_tk pa = Some tk -> pop_tk pb = Some tk -> False.
+Proof. exact FutureTheorems.ring_no_two_consumers. Qed.
+Print Assumptions ring_no_two_consumers.
+
+Theorem ring_no_two_producers : forall cfg own, wf_cfg cfg own ->
+  forall sched a b ka kb pa pb tk,
+    let s := fst (exec cfg sched) in
+    a <> b -> pc_of s a = PRing ka pa -> pc_of s b = PRing kb pb -> push_tk pa = Some tk -> push_tk pb = Some tk -> False.
+Proof. exact FutureTheorems.ring_no_two_producers. Qed.
+Print Assumptions ring_no_two_producers.
+
+Theorem ring_pop_reads_pushed : forall cfg own, wf_cfg cfg own ->
+  forall sched x k h,
+    let s := fst (exec cfg sched) in
+    pc_of s x = PRing k (PopRead h) ->
+    0 <= h < r_head (st_ring s) /\ s_data (get_slot (st_ring s) h) = Some (nth (Z.to_nat h) (r_log (st_ring s)) JNull).
+Proof. exact FutureTheorems.ring_pop_reads_pushed. Qed.
+Print Assumptions ring_pop_reads_pushed.
+
+Theorem ring_no_job_lost : forall cfg own, wf_cfg cfg own ->
+  forall sched tk,
+    let s := fst (exec cfg sched) in let tr := snd (exec cfg sched) in
+    r_head (st_ring s) <= tk < r_tail (st_ring s) ->
+    0 <= r_head (st_ring s) /\ r_tail (st_ring s) = Z.of_nat (length (r_log (st_ring s))) /\
+    match nth (Z.to_nat tk) (r_log (st_ring s)) JNull with
+    | JNull => True
+    | JCall f n a wk => f_phase (get_fut s f) = PhQueued tk /\ f_serial (get_fut s f) = n /\
+                        started tr f n a wk /\ runs tr f n = 0%nat
+    end.
+Proof. exact ring_pending_jobs. Qed.
+Print Assumptions ring_no_job_lost.
+
+Theorem join_liveness_refuted_original :
+  exists cfg own sched,
+    wf_cfg cfg own /\ c_fixed cfg = false /\
+    let s := fst (exec cfg sched) in
+    client_unfinished cfg s = true /\ all_blocked s = true /\
+    forall more tr, exec_from cfg s tr more = (s, tr).
+Proof. exact join_liveness_refuted_original_lemma. Qed.
+Print Assumptions join_liveness_refuted_original.
+
+Theorem deadlock_is_permanent : forall cfg s tr sched,
+  all_blocked s = true -> exec_from cfg s tr sched = (s, tr).
+Proof. exact FutureLiveness.deadlock_is_permanent. Qed.
+Print Assumptions deadlock_is_permanent.
+
+(* ---------------------------------------------------------------------------------------- *)
+(* non-vacuity: a concrete configuration (code as it is now), a complete fair schedule        *)
+(* ---------------------------------------------------------------------------------------- *)
+(* the run finishes (the client's script is done), three calls were joined, two results converted *)
+Example ex_run_completes :
+  client_unfinished ex_cfg (fst (exec ex_cfg ex_sched)) = false /\
+  length (filter (fun e => match e with EvJoinRet _ _ _ => true | _ => false end) (snd (exec ex_cfg ex_sched))) = 3%nat /\
+  has_event (fun e => match e with EvObs _ _ (OGet 0%nat (Some 1%nat) (Some 38)) => true | _ => false end)
+            (snd (exec ex_cfg ex_sched)) = true /\
+  has_event (fun e => match e with EvObs _ _ (OGet 1%nat (Some 1%nat) (Some 45)) => true | _ => false end)
+            (snd (exec ex_cfg ex_sched)) = true /\
+  has_event (fun e => match e with EvObs _ _ (OCheck 1%nat 1%nat StAborted _) => true | _ => false end)
+            (snd (exec ex_cfg ex_sched)) = true /\
+  runs (snd (exec ex_cfg ex_sched)) 0 1 = 1%nat /\ runs (snd (exec ex_cfg ex_sched)) 0 2 = 1%nat /\
+  runs (snd (exec ex_cfg ex_sched)) 1 1 = 1%nat.
+Proof. vm_compute. repeat split; reflexivity. Qed.
+
+(* some reachable state has a consumer between its claim and its read, and a non-empty queue *)
+Example ex_ring_states :
+  existsb (fun n => let s := fst (exec ex_cfg (firstn n ex_sched)) in
+                    existsb (fun x => match pc_of s x with PRing _ (PopRead _) => true | _ => false end)
+                            (seq 0 (length (st_threads s))))
+          (seq 0 (length ex_sched)) = true /\
+  existsb (fun n => let s := fst (exec ex_cfg (firstn n ex_sched)) in r_head (st_ring s) <? r_tail (st_ring s))
+          (seq 0 (length ex_sched)) = true.
+Proof. vm_compute. split; reflexivity. Qed.
+
+(* the deadlock witness of the old handshake is a real deadlock there, and is none on the code as it is now *)
+Example witness_deadlocks_original : deadlocked (dl_cfg false) (fst (exec (dl_cfg false) dl_sched)) = true.
+Proof. exact dl_deadlock. Qed.
+Example witness_survives_fix : deadlocked (dl_cfg true) (fst (exec (dl_cfg true) dl_sched)) = false.
+Proof. exact dl_fixed_alive. Qed.
